@@ -1,7 +1,20 @@
 import Tahoe.Mutable.RaceLemmas
+import Tahoe.Mutable.ServerMap
 /-! C12 — concurrent writers are detected, never silently clobbered (property theorems; helper lemmas live
     in `Tahoe/Mutable/RaceLemmas.lean`).  Schedules are arbitrary lists of atomic server operations of
     any number of writers. -/
+/-!
+## Coverage of the statement (properties.jsonl C12)
+
+| clause of the statement | theorem(s) |
+|---|---|
+| "each server write succeeds only if the share still holds the version the publisher saw (or does not exist yet)" | `write_only_if_unchanged` (a write changes the slot only if it equals the writer's belief, `none` = must not exist; nothing else changes), `view_is_survey_or_own_write` (the belief comes only from the writer's own survey of that server or its own successful write) — every schedule, any number of writers |
+| "no publisher overwrites a share that changed after its survey without noticing … a publisher that meets a different version reports an uncoordinated-write error" | `surprise_reported` (failed test vector or foreign surprise share at any point ⇒ `UncoordinatedWriteError`, whatever happens before and after); error class at the bookkeeping level: C47 `refused_or_surprising_write_is_ucw` |
+| "In every interleaving where no writer stops midway and (writers + 1) × k ≤ N, at least one version (old or new) remains recoverable" | `some_version_recoverable` ((old versions + W)·k ≤ N, every share number present or attempted), `some_version_recoverable_one_old` (the statement's form) |
+| MDMF multi-write guarded by its own checkstring | in the model (`seen` := own version after a successful write; `view_is_survey_or_own_write`); the code base sends one request per share, so only the single-write case is exercised by correspondence |
+| retry with backoff (`MutableFileVersion._modify_and_retry`), i.e. that concurrent `modify()` calls converge without losing a reported edit | NOT a theorem: false for the code as it is — `modify_convergence_counterexample` (negation witness on the model; open finding in known_findings.d/C12.json); the stale-pinned-version defect of the retry loop was fixed (fixes/C12-modify-retry-stale-version.diff, committed) and is monitored on the grid |
+| test vector a new-share write carries is "must not exist" | correspondence (test-vector kind of every recorded write vs the model's expectation) |
+-/
 namespace Tahoe.C12
 open Tahoe.Mutable.Race
 
@@ -209,5 +222,65 @@ example : (∀ slot v, oldStore slot = some v → v = 0) ∧ (∀ sh, sh < 4 →
     subst hw
     simp only [schedEx, List.mem_cons, Ev.write.injEq, reduceCtorEq, false_or, List.not_mem_nil, or_false] at he
     omega
+
+/-! ### the open finding (known_findings.d/C12.json) as a theorem about the model of the code as it is
+
+`modify()` = survey, take the best recoverable version of that survey (`ServerMap.best_recoverable_version`),
+publish `f(contents)` under `highest_seqnum()+1`, and on `UncoordinatedWriteError` survey again and retry.  The
+publish-level theorems above all hold in the run below, and yet a successfully reported edit disappears: the
+first attempt of writer A surveys while B is half-way, sees B's version on fewer than `k` shares
+(`unrecoverable_newer_versions()` is non-empty), publishes anyway from the older version, is refused on most
+shares but leaves `k` shares of its stale-based, highest-seqnum version; its retry then (correctly, by the
+rules) takes that version as best. -/
+
+/-- version ids of the run: 0 = the old version (seq 1, no edits); 1 = B's (seq 2, edit b);
+    2 = A's first attempt (seq 3); 3 = A's retry (seq 4) -/
+def mSeq (v : Ver) : Nat := v + 1
+def mInfo (v : Ver) : Tahoe.Mutable.VerInfo :=
+  { seqnum := mSeq v, rootHash := [v], iv := none, segsize := 6, datalength := 6, k := 2, n := 4, pfx := [v], offsets := [] }
+/-- the servermap a writer holds: its beliefs about the slots it knows -/
+def viewMap (st : St) (w : Nat) (slots : List Slot) : Tahoe.Mutable.ServerMap :=
+  { known := slots.filterMap (fun s => (st.seen w s).map (fun v => (s, mInfo v))) }
+
+def mSlots : List Slot := [(0, 0), (1, 1), (2, 2), (0, 3), (1, 3)]
+/-- 2-of-4: shares 0,1,2 on servers 0,1,2; share 3 is lost.  Attempt 0 = writer B; attempts 1, 2 = writer A. -/
+def mStore : Slot → Option Ver := fun s => if s = (0, 0) ∨ s = (1, 1) ∨ s = (2, 2) then some 0 else none
+def mCfg : Cfg :=
+  { nsh := 4, k := 2, ver := fun w => w + 1, expect := fun w => some (w + 1),
+    goal := fun w => if w = 0 then [(0, 0), (1, 1), (2, 2), (1, 3)]
+                     else if w = 1 then [(0, 0), (1, 1), (2, 2), (0, 3)] else mSlots }
+/-- B surveys; A surveys servers 1, 2; B writes everything; A surveys server 0 (sees one share of B's version),
+    publishes; A's retry surveys everything and publishes -/
+def mSched1 : List Ev :=
+  [.survey 0 0, .survey 0 1, .survey 0 2, .survey 1 1, .survey 1 2,
+   .write 0 (0, 0), .write 0 (1, 1), .write 0 (2, 2), .write 0 (1, 3), .survey 1 0]
+def mSched2 : List Ev := [.write 1 (0, 0), .write 1 (1, 1), .write 1 (2, 2), .write 1 (0, 3), .survey 2 0, .survey 2 1, .survey 2 2]
+def mSched3 : List Ev := [.write 2 (0, 0), .write 2 (1, 1), .write 2 (2, 2), .write 2 (0, 3), .write 2 (1, 3)]
+/-- contents as sets of edits: each attempt adds its writer's edit (b = 1, a = 2) to the best version of its survey -/
+def mContent : Ver → List Nat
+  | 0 => [] | 1 => [1] | 2 => [2] | _ => [2]
+
+/-- Counterexample to "a successfully reported modify() is never lost" for the code as it is: every attempt
+    takes the best recoverable version of its own survey and the next sequence number of that survey (the
+    model of `modify()`), B's publish and A's retry both succeed, A's first attempt ends in
+    `UncoordinatedWriteError` — and at the end every share holds A's version, whose contents lack B's edit. -/
+theorem modify_convergence_counterexample :
+    let st1 := run mCfg (St.init mStore) mSched1
+    let st2 := run mCfg st1 mSched2
+    let st3 := run mCfg st2 mSched3
+    -- A's first attempt: best recoverable = the old version, B's version visible but unrecoverable and newer
+    (viewMap st1 1 mSlots).bestRecoverable = some (mInfo 0) ∧
+    (viewMap st1 1 mSlots).unrecoverableNewer ≠ [] ∧
+    Tahoe.Mutable.newSeqnum (some (viewMap st1 1 mSlots)) = mSeq (mCfg.ver 1) ∧
+    mContent (mCfg.ver 1) = mContent 0 ++ [2] ∧
+    -- A's retry: its full survey shows its own stale-based version as best (seq 3 over B's seq 2)
+    (viewMap st2 2 mSlots).bestRecoverable = some (mInfo 2) ∧
+    Tahoe.Mutable.newSeqnum (some (viewMap st2 2 mSlots)) = mSeq (mCfg.ver 2) ∧
+    mContent (mCfg.ver 2) = mContent 2 ∧
+    -- what the callers are told
+    outcome mCfg st3 0 = .success ∧ outcome mCfg st3 1 = .uncoordinatedWrite ∧ outcome mCfg st3 2 = .success ∧
+    -- the grid afterwards: A's version everywhere; B's edit (1) is gone
+    (∀ s ∈ mSlots, st3.store s = some 3) ∧ 1 ∉ mContent 3 ∧ 1 ∈ mContent (mCfg.ver 0) := by
+  decide
 
 end Tahoe.C12
